@@ -118,6 +118,22 @@ def extract():
     put('min_buffer', m and int(m.group(2)))
     put('max_buffer', m and int(m.group(3)))
 
+    # the error bound the percentile sketch is created with, as (mantissa, decimal exponent)
+    pct = read('src/operator/percentile.rs')
+    m = re.search(r'CKMS::<f64>::new\(0\.(\d+)\)', pct)
+    put('ckms_error', (int(m.group(1)), -len(m.group(1))) if m else None)
+    # which chrono rendering each path uses for a date: Serialize, Display for Value (to_string), ValueDisplay (text output)
+    forms = []
+    m = re.search(r'Value::DateTime\(dt\) => serializer\.serialize_str\(dt\.(\w+)\(\)', data)
+    forms.append(('Serialize', m.group(1)) if m else None)
+    b1 = fn_body(data, r'impl Display for Value \{')
+    m = re.search(r'Value::DateTime\(ref dt\) => write!\(f, "(\{[^"]*\})", dt\)', b1 or '')
+    forms.append(('Display', m.group(1)) if m else None)
+    b2 = fn_body(data, r"impl Display for ValueDisplay<'_> \{")
+    m = re.search(r'Value::DateTime\(ref dt\) => write!\(f, "(\{[^"]*\})", dt\)', b2 or '')
+    forms.append(('ValueDisplay', m.group(1)) if m else None)
+    put('date_forms', forms if all(forms) else None)
+
     # default column names
     body = fn_body(lang, r'fn default_name\(&self\) -> String \{')
     names = re.findall(r'AggregateFunction::(\w+) \{ \.\. \} => "(\w+)"\.to_string\(\)', body or '')
@@ -231,6 +247,10 @@ def render(facts):
         emit('comp_op_tags', 'list (string * string)', coq_list('(%s, %s)' % (coq_str(t), coq_str(c)) for t, c in facts['comp_op_tags']))
     if 'duration_suffixes' in facts:
         emit('duration_suffixes', 'list (string * string)', coq_list('(%s, %s)' % (coq_str(t), coq_str(c)) for t, c in facts['duration_suffixes']))
+    if 'ckms_error' in facts:
+        emit('ckms_error', 'Z * Z', '(%d%%Z, (%d)%%Z)' % facts['ckms_error'])
+    if 'date_forms' in facts:
+        emit('date_forms', 'list (string * string)', coq_list('(%s, %s)' % (coq_str(a), coq_str(b)) for a, b in facts['date_forms']))
     if 'alias_table' in facts:
         emit('alias_table', 'list (string * string)', coq_list('(%s, %s)' % (coq_str(a), coq_str(b)) for a, b in facts['alias_table']))
     return '\n'.join(L) + '\n'
